@@ -1,4 +1,4 @@
-import Nstd.Buffer.LemmasStep
+import Nstd.Buffer.LemmasCap
 /-
   Property C08: "After any sequence of append, prepend, assign, resize, reserve, removeFront,
   removeBack, clear, free, swap, copy and attach, a Buffer exposes exactly the bytes a reference
@@ -141,6 +141,87 @@ theorem compare_no_fault (nvars : Nat) (regs : List (List Byte)) (ops : List (Op
   obtain ⟨cv, hcv, _⟩ := refines nvars regs ops st hrun v hv
   obtain ⟨cw, hcw, _⟩ := refines nvars regs ops st hrun w hw
   exact ⟨cv, cw, hcv, hcw, by simp [equalBufs, hcv, hcw]⟩
+
+/-! ### capacity, `reserve`, the observers `size()` / `isEmpty()` / `capacity()` -/
+
+/-- **Capacity policy bound.**  After any history the `_capacity` of every variable is at most the largest size any
+    operation of the history requested (`Spec.demand`, computed on the reference byte queue: the result size of a growing
+    method, the argument of `Buffer(capacity)` / `reserve`) or the environment wished for (`Spec.peak` = the maximum
+    over the history of both).  With today's policy (wish 0 everywhere) the capacity never exceeds the largest size
+    ever requested – whatever the number of operations: a window that slides (`append` / `removeFront`) re-uses its
+    allocation (compact-to-front branch of `resize`) instead of growing it. -/
+theorem capacity_policy_bound (nvars : Nat) (regs : List (List Byte)) (ops : List (Op × Nat)) (st : State)
+    (hrun : run (init nvars regs) ops = some st) (v : Nat) (b : Buf) (hb : st.getBuf v = some b) :
+    b.cap ≤ Spec.peak regs (Spec.init nvars) ops := by
+  have h0 : CapLe 0 (init nvars regs) := by
+    intro u bu hu
+    obtain ⟨_, rfl⟩ := init_bufs nvars regs u bu hu
+    simp [Buf.default]
+  have := run_cap ops (init_inv nvars regs) (init_rel nvars regs) hrun h0 v b hb
+  simpa [init] using this
+
+/-- **`reserve` keeps the content.**  In every reachable state `reserve(n)` on any variable succeeds, leaves a capacity
+    of at least `n` that is not smaller than before, and the exposed bytes of every variable (and its size) are the same. -/
+theorem reserve_keeps_content (nvars : Nat) (regs : List (List Byte)) (ops : List (Op × Nat)) (st : State)
+    (hrun : run (init nvars regs) ops = some st) (v n k : Nat) (hv : v < nvars) :
+    ∃ st' b b', step st k (.reserve v n) = some st' ∧ st.getBuf v = some b ∧ st'.getBuf v = some b' ∧
+      n ≤ b'.cap ∧ b.cap ≤ b'.cap ∧ b'.size = b.size ∧ ∀ w, w < nvars → contents st' w = contents st w := by
+  have hp := run_post ops (qs := Spec.init nvars) (init_inv nvars regs) (init_rel nvars regs) hrun
+  have hlen : st.bufs.length = nvars := by simpa [init] using hp.2.2.2
+  obtain ⟨st', hst', hpost⟩ := step_ok hp.1 hp.2.1 k (.reserve v n) (by simpa [WFOp, hlen] using hv)
+  obtain ⟨b, b', L', hb, hfb, rfl⟩ := upd_elim (f := fun b => b.reserve n k) hst'
+  have hbi := hp.1.1 v b hb
+  have hli := liveIn_of_inv hp.1 hb
+  have h1 := (okM_of_some hfb _).1 (reserve_ok hbi hli hp.1.2.bounded n k)
+  have h2 := (okM_of_some hfb _).1 (reserve_cap hbi hli hp.1.2.bounded n k)
+  have hvl : v < st.bufs.length := hlen ▸ hv
+  refine ⟨_, b, b', hst', hb, ?_, h2.1, h2.2.1, h2.2.2.2, fun w hw => ?_⟩
+  · simp [State.getBuf, State.setBL, hvl]
+  · have hwl : w < st.bufs.length := hlen ▸ hw
+    have hwl' : w < (st.setBL v b' L').bufs.length := by simpa [State.setBL] using hwl
+    rw [contents_state hpost.1 hwl', contents_state hp.1 hwl]
+    have hg := getElem?_setBL st v w b' L' hvl
+    rw [List.getElem?_eq_getElem hwl'] at hg
+    by_cases hvw : v = w
+    · subst hvw
+      simp only [if_true, Option.some.injEq] at hg
+      have hbb : st.bufs[v] = b := by
+        have := List.getElem?_eq_getElem hvl
+        rw [hb] at this
+        exact (Option.some.inj this).symm
+      rw [hg, h1.2.2, hbb]
+    · simp only [hvw, if_false] at hg
+      rw [List.getElem?_eq_getElem hwl] at hg
+      rw [Option.some.inj hg]
+
+/-- **Observers.**  In every reachable state `size()` is the number of exposed bytes (= the length of the reference byte
+    queue), `isEmpty()` says whether there are none, an owning Buffer's bytes and terminator fit its `capacity()`
+    (`size() ≤ capacity()`), and a Buffer that owns nothing reports the capacity 0. -/
+theorem observers_agree (nvars : Nat) (regs : List (List Byte)) (ops : List (Op × Nat)) (st : State)
+    (hrun : run (init nvars regs) ops = some st) (v : Nat) (b : Buf) (hb : st.getBuf v = some b) :
+    ∃ c, contents st v = some c ∧ b.size = c.length ∧
+      b.size = (Spec.get (Spec.run regs (Spec.init nvars) (ops.map Prod.fst)) v).length ∧
+      (b.isEmpty = true ↔ c = []) ∧ (b.owning = true → b.size ≤ b.cap) ∧ (b.owning = false → b.cap = 0) := by
+  have hp := run_post ops (qs := Spec.init nvars) (init_inv nvars regs) (init_rel nvars regs) hrun
+  have hvl : v < st.bufs.length := (List.getElem?_eq_some_iff.1 hb).1
+  have hbb : st.bufs[v] = b := by
+    have := List.getElem?_eq_getElem hvl
+    rw [State.getBuf] at hb
+    rw [hb] at this
+    exact (Option.some.inj this).symm
+  have hbi := hp.1.1 v b hb
+  have hdl := data_length hbi
+  refine ⟨b.data, hbb ▸ contents_state hp.1 hvl, by simp [Buf.size, hdl], ?_, ?_, ?_, ?_⟩
+  · have hm : (Spec.get (Spec.run regs (Spec.init nvars) (ops.map Prod.fst)) v).length = b.data.length :=
+      (hp.2.1.2 v b hb).length
+    rw [hm, hdl]; rfl
+  · rw [← List.length_eq_zero_iff, hdl]
+    obtain ⟨store, s, e, cap⟩ := b
+    cases store <;> simp only [BInv] at hbi <;> simp only [Buf.isEmpty, beq_iff_eq] <;> omega
+  · obtain ⟨store, s, e, cap⟩ := b
+    cases store <;> simp only [BInv] at hbi <;> simp [Buf.owning, Buf.size] <;> omega
+  · obtain ⟨store, s, e, cap⟩ := b
+    cases store <;> simp only [BInv] at hbi <;> simp [Buf.owning] <;> omega
 
 /-- all four statements at once for well-formed histories -/
 theorem buffer_correct (nvars : Nat) (regs : List (List Byte)) (ops : List (Op × Nat))
